@@ -164,7 +164,18 @@ pub fn run(tier: &str, seed: u64, replay: Option<String>) -> i32 {
     let opt_picked = diskrun::stratified(opt_jobs, if thorough { 4 } else { 1 }, &mut rng);
     let n_opt = opt_picked.len();
     jobs.extend(opt_picked);
-    eprintln!("[C02] + {} generated projects (option variations)", n_opt);
+    // generated projects: single-line damage (the C19 fault space) - whatever the converter
+    // still accepts must be closed as well (closure clause only)
+    let mut line_jobs: Vec<DJob> = vec![];
+    for f in &files {
+        let mut js = diskrun::jobs_for(f, diskfault::enumerate_c19(f, false), 1, false, true);
+        js.retain(|j| matches!(j.edit, Edit::DelLine { .. } | Edit::DupLine { .. } | Edit::RenameQuoted { .. } | Edit::NumToText { .. } | Edit::BlockRemoved { .. }));
+        line_jobs.extend(js);
+    }
+    let line_picked = diskrun::stratified(line_jobs, if thorough { 6 } else { 1 }, &mut rng);
+    let n_line = line_picked.len();
+    jobs.extend(line_picked);
+    eprintln!("[C02] + {} generated projects (option variations) + {} (single-line damage)", n_opt, n_line);
     eprintln!(
         "[C02] fault space {} single faults in {} cells; running {} jobs",
         space_total,
@@ -309,6 +320,7 @@ pub fn run(tier: &str, seed: u64, replay: Option<String>) -> i32 {
     extra.insert("cells_hit".into(), json!(cells_hit.len()));
     extra.insert("data_level_definition_removals".into(), json!(db_cases));
     extra.insert("generated_projects_option_variation".into(), json!(n_opt));
+    extra.insert("generated_projects_single_line_damage".into(), json!(n_line));
     extra.insert("fault_kinds_fired".into(), json!(fired));
     extra.insert("outcome_classes".into(), json!(classes));
     extra.insert("models_returned_after_a_fault".into(), json!(ok_models_after_fault));
